@@ -1674,8 +1674,13 @@ def classify(case, okey, e, got, obs=None):
     if fam.startswith('default-') and k is not None:
         # the declared-default dimension: where the option lives, its kind, and which source should have been in effect
         src = case['meta'].get('source')
-        return 'C07:default:%s:%s:%s:%s' % (fam[8:], where, k['type'],
-                                            'declared-default-not-in-effect' if src is None else 'with-%s-set' % src)
+        place = fam[8:]
+        if where != 'sub' or place == 'yield':
+            w = src if src in ('P', 'M', 'C') or (src == 'CS' and where == 'sub') else None    # (else: the parent's declared default)
+        else:
+            w = src if src in SUB_ADDRESSED else None
+        return 'C07:default:%s:%s:%s:%s' % (place, where, k['type'], 'value-from-%s-not-in-effect' % w if w else
+                                            'declared-default-not-in-effect' + (':with-%s-set' % src if src else ''))
     return 'C07:value:%s:%s:%s' % (fam, where, (k['type'] if k else name))
 
 
@@ -2779,7 +2784,8 @@ def main():
         ck.require(nruns['B'] > 0 or nbad, 'buildtype reading: no tier B setup')
         ck.require(seen_readings.get('buildtype-wins', 0) + seen_readings.get('explicit-stays', 0) > 0, 'buildtype reading: no reading observed')
     if os.environ.get('C07_SHOW_PARTS'):
-        print(json.dumps({k: v for k, v in ck.parts.items() if 'spelling' in k}, indent=1, sort_keys=True))
+        pats = [x if x != '1' else 'spelling' for x in os.environ['C07_SHOW_PARTS'].split(',')]
+        print(json.dumps({k: v for k, v in ck.parts.items() if any(x in k for x in pats)}, indent=1, sort_keys=True))
     ck.assume('reference order transcribed from Builtin-options.md ("The value is overridden in this order"), Machine-files.md '
               '("Command line > Machine file > Build system definitions"), Build-options.md (yield, types), project/subproject yaml docs')
     ck.assume('non-yielding subproject project option: unprefixed opt=value addresses the parent\'s option of that name, never the subproject\'s')
